@@ -100,6 +100,12 @@ NOT_APPLICABLE = {
 }
 HOOK_COMMITS = []
 
+# Families of properties whose bounded stand-ins examine different facets (acceptance, value, code
+# map, error, options) of the same executions against the same reference parser: for an obligation
+# explicitly tagged with several of them, a failing input found for one facet and none for another is
+# comparable evidence (driver: attribution by evidence).  No other obligations are ever deflected.
+EVIDENCE_FAMILIES = [{"C01", "C02", "C05", "C07", "C12"}]
+
 # trusted items per unit are collected mechanically from the generated file
 # (assume_specification / external_body / external_type_specification / admit / assume)
 TRUST_PATTERNS = [
